@@ -526,6 +526,12 @@ func (g *GoFakeS3) writeGetOrHeadObjectResponse(obj *Object, w http.ResponseWrit
 		w.Header().Set(mk, mv)
 	}
 
+	if _, ok := w.Header()["Content-Type"]; !ok {
+		// Without one, net/http guesses a type from the first bytes of a GET
+		// response and sends none at all with a HEAD response. S3's default:
+		w.Header().Set("Content-Type", "binary/octet-stream")
+	}
+
 	if obj.VersionID != "" {
 		w.Header().Set("x-amz-version-id", string(obj.VersionID))
 	}
